@@ -892,7 +892,17 @@ def iter_try_for_each(ctx):
                     return NotImplemented
                 d = r.discr if isinstance(r.discr, int) else concrete(r.discr)
                 if d is None:
-                    return NotImplemented
+                    # outcome not decided on this path: continue with Ok, stop with the Err
+                    is_ok = simp(r.discr == BV(0, 64))
+                    t, f = ex.branch(s2, is_ok)
+                    if f:
+                        s3 = s2.fork() if t else s2
+                        ex.assume(s3, z3.Not(is_ok))
+                        done.append((s3, r.with_discr(1)))
+                    if t:
+                        ex.assume(s2, is_ok)
+                        nxt.append(s2)
+                    continue
                 if d == 0:
                     nxt.append(s2)
                 else:
@@ -901,6 +911,63 @@ def iter_try_for_each(ctx):
     for s in frontier:
         done.append((s, mk_result(ex, ok=UNIT)))
     return done
+
+
+@contract(r' as Iterator>::for_each::<.*>$')
+def iter_for_each(ctx):
+    """apply the closure to each element of an explicit list in order, all effects kept"""
+    ex, st = ctx.ex, ctx.st
+    elems = _explicit_elems(ctx, ctx.args[0])
+    clo = ctx.args[1]
+    if not isinstance(clo, Agg):
+        return NotImplemented
+    ccell = st.alloc(clo)
+    if elems is None:
+        # a sequence of symbolic length: unroll up to the loop bound, one successor per possible length
+        seq = _as_lazy_seq(ctx, ctx.args[0])
+        if seq is None:
+            return NotImplemented
+        bound = getattr(ex, 'loop_bound', 6)
+        if concrete(seq.len) is not None:
+            bound = max(bound, concrete(seq.len))
+        frontier, done = [st], []
+        for i in range(bound):
+            nxt = []
+            for s in frontier:
+                more = simp(z3.ULT(BV(i, 64), seq.len))
+                t, f = ex.branch(s, more)
+                if f:
+                    s_end = s.fork() if t else s
+                    ex.assume(s_end, z3.Not(more))
+                    done.append((s_end, UNIT))
+                if t:
+                    ex.assume(s, more)
+                    c2 = type(ctx)(ex, s, ctx.fr, ctx.callee, ctx.args, ctx.dest_ty)
+                    rs = apply_callable(c2, Ref(ccell, (), True), [seq.at(BV(i, 64), merge=ex.ite)])
+                    if rs is None:
+                        return NotImplemented
+                    nxt += [s2 for s2, _ in rs]
+            frontier = nxt
+        for s in frontier:
+            more = simp(z3.ULT(BV(bound, 64), seq.len))
+            t, f = ex.branch(s, more)
+            if t:
+                ex.stats['unwind_hits'].append(('Iterator::for_each', bound))
+            if f:
+                ex.assume(s, z3.Not(more))
+                done.append((s, UNIT))
+        return done
+    frontier = [st]
+    for e in elems:
+        nxt = []
+        for s in frontier:
+            c2 = type(ctx)(ex, s, ctx.fr, ctx.callee, ctx.args, ctx.dest_ty)
+            rs = apply_callable(c2, Ref(ccell, (), True), [e])
+            if rs is None:
+                return NotImplemented
+            nxt += [s2 for s2, _ in rs]
+        frontier = nxt
+    return [(s, UNIT) for s in frontier]
 
 
 @contract(r' as Iterator>::find::<.*>$')
@@ -1787,3 +1854,128 @@ def iter_map_next(ctx):
             return NotImplemented
         outs += [(s3, mk_option(ex, r)) for s3, r in rs]
     return outs
+
+
+@contract(r' as Iterator>::find_map::<.*>$')
+def iter_find_map(ctx):
+    """iter.find_map(f) over an explicit list: the first Some(..) the real closure returns, in order (std semantics)"""
+    ex, st = ctx.ex, ctx.st
+    elems = _explicit_elems(ctx, ctx.args[0])
+    clo = ctx.args[1]
+    if elems is None or not isinstance(clo, Agg):
+        return NotImplemented
+    ccell = st.alloc(clo)
+    outs = []
+    frontier = [st]
+    for e in elems:
+        nxt = []
+        for s in frontier:
+            c2 = type(ctx)(ex, s, ctx.fr, ctx.callee, ctx.args, ctx.dest_ty)
+            rs = apply_callable(c2, Ref(ccell, (), True), [Ref(e.cell, e.path, False)])
+            if rs is None:
+                return NotImplemented
+            for s2, r in rs:
+                if not isinstance(r, Agg) or r.discr is None:
+                    return NotImplemented
+                d = r.discr
+                if isinstance(d, int):
+                    (outs if d == 1 else nxt).append((s2, r) if d == 1 else s2)
+                    continue
+                some = simp(d == BV(1, 64))
+                t, f = ex.branch(s2, some)
+                if t:
+                    s3 = s2.fork() if f else s2
+                    ex.assume(s3, some)
+                    outs.append((s3, r.with_discr(1) if hasattr(r, 'with_discr') else r))
+                if f:
+                    ex.assume(s2, z3.Not(some))
+                    nxt.append(s2)
+        frontier = nxt
+    for s in frontier:
+        outs.append((s, mk_option(ex, None)))
+    return outs
+
+
+@contract(r'^(?:std::option::)?Option::<.*>::map::<.*>$')
+def option_map(ctx):
+    """Option::map(f): None -> None; Some(x) -> Some(f(x)) with the real closure / function item"""
+    ex, st = ctx.ex, ctx.st
+    v, _ = to_enum(ex, st, ctx.args[0])
+    d = v.discr
+    is_some = z3.BoolVal(d == 1) if isinstance(d, int) else simp(d == BV(1, 64))
+    t, f = ex.branch(st, is_some)
+    outs = []
+    if t:
+        s2 = st.fork() if f else st
+        ex.assume(s2, is_some)
+        hm = re.match(r'^(?:std::option::)?Option::<(.*)>::map::<', ctx.callee, re.S)
+        x = payload(ex, s2, v, 1, 0, hm.group(1).strip() if hm else 'unknown')
+        c2 = type(ctx)(ex, s2, ctx.fr, ctx.callee, ctx.args, ctx.dest_ty)
+        rs = apply_callable(c2, ctx.args[1], [x])
+        if rs is None:
+            return NotImplemented
+        outs += [(s3, mk_option(ex, r)) for s3, r in rs]
+    if f:
+        if t:
+            ex.assume(st, z3.Not(is_some))
+        outs.append((st, mk_option(ex, None)))
+    return outs
+
+
+@contract(r'^core::bool::then::<.*>$|^core::bool::<impl bool>::then::<.*>$|^bool::then::<.*>$')
+def bool_then(ctx):
+    """bool::then(f): Some(f()) if true, else None"""
+    ex, st = ctx.ex, ctx.st
+    b = ctx.args[0]
+    if not isinstance(b, Bool):
+        return NotImplemented
+    t, f = ex.branch(st, b.t)
+    outs = []
+    if t:
+        s2 = st.fork() if f else st
+        ex.assume(s2, b.t)
+        c2 = type(ctx)(ex, s2, ctx.fr, ctx.callee, ctx.args, ctx.dest_ty)
+        rs = apply_callable(c2, ctx.args[1], [])
+        if rs is None:
+            return NotImplemented
+        outs += [(s3, mk_option(ex, r)) for s3, r in rs]
+    if f:
+        if t:
+            ex.assume(st, z3.Not(b.t))
+        outs.append((st, mk_option(ex, None)))
+    return outs
+
+
+@contract(r'^core::bool::then_some::<.*>$|^core::bool::<impl bool>::then_some::<.*>$|^bool::then_some::<.*>$')
+def bool_then_some(ctx):
+    ex, st = ctx.ex, ctx.st
+    b = ctx.args[0]
+    if not isinstance(b, Bool):
+        return NotImplemented
+    cb = concrete(b.t) if not z3.is_true(b.t) and not z3.is_false(b.t) else (1 if z3.is_true(b.t) else 0)
+    if z3.is_true(simp(b.t)):
+        return mk_option(ex, ctx.args[1])
+    if z3.is_false(simp(b.t)):
+        return mk_option(ex, None)
+    return Agg('Option', {}, simp(z3.If(b.t, BV(1, 64), BV(0, 64))), {1: {0: ctx.args[1]}}, ex.si.enums['Option'])
+
+
+@contract(r'^std::io::Error::kind$')
+def io_error_kind(ctx):
+    """io::Error::kind(): the kind the failing operation reported -- one symbolic value per error object (an input of the spec)"""
+    ex, st = ctx.ex, ctx.st
+    e = ex.deref(st, ctx.args[0])
+    vs = ex.si.enums['ErrorKind']
+    key = ('ioerr-kind', id(e) if not isinstance(e, Opaque) else (e.ty, str(e.tag)))
+    kinds = st.env.get('io_error_kinds', {})
+    if key not in kinds:
+        if isinstance(e, Opaque) and isinstance(e.tag, tuple) and len(e.tag) > 1 and e.tag[1] == 'UnexpectedEof':
+            d = BV(vs.index('UnexpectedEof'), 64)
+        else:
+            d = z3.BitVec(fresh_name('io_error_kind'), 64)
+            ex.assume(st, z3.ULT(d, BV(len(vs), 64)))
+            st.env['inputs'] = dict(st.env.get('inputs', {}), **{'io_error_kind': d})
+        kinds = dict(kinds)
+        kinds[key] = d
+        st.env['io_error_kinds'] = kinds
+    return Agg('ErrorKind', {}, kinds[key], {}, vs)
